@@ -24,10 +24,15 @@ type genProfile struct {
 	nextKey   int          // next unused validator key
 	txPerBlk  int
 	refundOps bool // include SSTORE-clearing contract calls (known finding F-C07c)
+	// cap pressure: validator key `capKey` (House, created near its role's MaxStakes) is driven to the cap with delegations;
+	// then, within one period, a small own withdrawal (which re-bases the pending-total record on the SELF tokens) or another
+	// delegator's sub is combined with deposits / delegations sized to straddle the cap, so that the submit-time check passes and
+	// the take-effect-time check fails (V5 refund branches of teDeposit / teDelegationAdd) - or just fits.
+	capKey int // -1: no pressure validator in this world
 }
 
 func genWorld(r *vh.RNG) ([]string, *genProfile) {
-	p := &genProfile{lazy: map[int]bool{}, txPerBlk: r.Range(1, 4)}
+	p := &genProfile{lazy: map[int]bool{}, txPerBlk: r.Range(1, 4), capKey: -1}
 	pool := youN(100000)
 	switch r.Intn(6) {
 	case 0:
@@ -58,6 +63,16 @@ func genWorld(r *vh.RNG) ([]string, *genProfile) {
 			p.lazy[k] = true
 		}
 		lines = append(lines, fmt.Sprintf("GV %d %d %s %d", k, role, tok, status))
+	}
+	if r.Chance(45) {
+		// the pressure validator: House (cap 150000 YOU on the test-case table), 95000..120000 YOU of its own
+		p.capKey = n
+		tok := youN(int64(r.Range(95000, 120000)))
+		if r.Bool() {
+			tok.Add(tok, odd())
+		}
+		lines = append(lines, fmt.Sprintf("GV %d 3 %s 1", n, tok))
+		n++
 	}
 	p.nextKey = n
 	p.refundOps = r.Chance(25)
@@ -307,12 +322,92 @@ func (p *genProfile) genBlock(r *vh.RNG, w *world, st *state.StateDB, res *vh.Re
 		}
 		lines = append(lines, l)
 	}
+	lines = append(lines, p.capPressure(r, w, vals)...)
 	// rarely: forged (really signed) double-sign evidence against a validator other than the chain-keeping key 0
 	if r.Chance(3) {
-		if v, ok := pickVal(func(v valView) bool { return v.key != 0 }); ok {
+		if v, ok := pickVal(func(v valView) bool { return v.key != 0 && v.key != p.capKey }); ok {
 			lines = append(lines, fmt.Sprintf("EV %d", v.key))
 		}
 	}
 	_ = common.Address{}
 	return lines
+}
+
+// capPressure emits the cap-pressure operations of this block (see genProfile.capKey).
+func (p *genProfile) capPressure(r *vh.RNG, w *world, vals []valView) []string {
+	if p.capKey < 0 {
+		return nil
+	}
+	var pv *valView
+	for i := range vals {
+		if vals[i].key == p.capKey {
+			pv = &vals[i]
+		}
+	}
+	if pv == nil || pv.operator < 0 {
+		return nil
+	}
+	v := pv.v
+	cap := new(big.Int).Mul(new(big.Int).SetUint64(w.yp.MaxStakes[params.ValidatorRole(v.Role)]), you)
+	room := new(big.Int).Sub(cap, v.Token) // what still fits into the REAL total
+	var out []string
+	switch {
+	case v.AcceptDelegation != params.AcceptDelegation:
+		if r.Chance(30) {
+			out = append(out, fmt.Sprintf("VU %d %d 65535 65535 1", pv.operator, pv.key))
+		}
+	case room.Cmp(youN(12000)) > 0:
+		// build the delegations up towards the cap ("fits" branches)
+		if r.Chance(35) {
+			amt := youN(int64(r.Range(4000, 11000)))
+			if r.Bool() {
+				amt.Add(amt, big.NewInt(int64(r.Intn(1000000))))
+			}
+			out = append(out, fmt.Sprintf("DA %d %d %s", r.Intn(w.users), pv.key, amt))
+		}
+	default:
+		if !r.Chance(30) {
+			return nil
+		}
+		// near the cap: straddle it. delta > 0 overshoots the real total (must fail at take-effect), delta <= 0 just fits.
+		delta := youN(int64(r.Range(-900, 2500)))
+		amt := new(big.Int).Add(room, delta)
+		if amt.Cmp(youN(10)) < 0 {
+			amt = youN(int64(r.Range(10, 400)))
+		}
+		switch r.Intn(4) {
+		case 0, 1:
+			// own small withdrawal first: the pending-total record becomes SelfToken - w, the delegations drop out of it
+			out = append(out, fmt.Sprintf("VW %d %d u%d %s", pv.operator, pv.key, pv.operator, youN(int64(r.Range(1, 40)))))
+			if r.Bool() {
+				out = append(out, fmt.Sprintf("VD %d %d %s", pv.operator, pv.key, amt))
+			} else {
+				out = append(out, fmt.Sprintf("DA %d %d %s", r.Intn(w.users), pv.key, amt))
+			}
+		case 2:
+			// another delegator's sub plus an add of about the same size: fits the pending total; fails when it takes effect first
+			if len(v.Delegations) > 0 {
+				d := v.Delegations[r.Intn(len(v.Delegations))]
+				if du := w.idOf(d.Delegator) - idUser; du >= 0 && du < w.users {
+					z := new(big.Int).Div(d.Token, big.NewInt(int64(r.Range(1, 3))))
+					if z.Cmp(youN(10)) >= 0 {
+						out = append(out, fmt.Sprintf("DS %d %d %s", du, pv.key, z))
+						y := new(big.Int).Add(room, new(big.Int).Sub(z, youN(int64(r.Range(0, 300)))))
+						if y.Cmp(youN(10)) < 0 {
+							y = youN(int64(r.Range(10, 400)))
+						}
+						out = append(out, fmt.Sprintf("DA %d %d %s", (du+1+r.Intn(w.users-1))%w.users, pv.key, y))
+					}
+				}
+			}
+		case 3:
+			// no cover: rejected at submit time when it overshoots
+			if r.Bool() {
+				out = append(out, fmt.Sprintf("VD %d %d %s", pv.operator, pv.key, amt))
+			} else {
+				out = append(out, fmt.Sprintf("DA %d %d %s", r.Intn(w.users), pv.key, amt))
+			}
+		}
+	}
+	return out
 }
